@@ -2,15 +2,18 @@
 D: the real SetShapeSegments / GetShapeSegments on FO4/FO76 shapes (samples and constructed meshes): all triangle counts 0..8 ×
    label lists over a small alphabet exhaustively (bounded), random larger ones, permuted ids, empty segments, sub-segments, -1;
    then vertex deletion, save and reload. Oracle = the property; correspondence = Lean setSegmentation/getLabels predict the
-   stored order, the raw range table and the labels read back."""
+   stored order, the raw range table and the labels read back; the re-fit after a vertex deletion: Lean `refit` (Mesh/SegRefit.lean)
+   against BSSubIndexTriShape::notifyVerticesDelete on the same ranges and removed-triangle list, plus the theorems' hypotheses
+   (list strictly descending, ranges tiled the triangles) checked on what the library produced (props/segrefit.py)."""
 import itertools
 import json
 
 from props import filecamp
+from props import segrefit
 from props import shapeparse as SP
 from vlib import common as C
 
-LEAN_MODULES = ["NiflyVerif.Props.C17"]
+LEAN_MODULES = ["NiflyVerif.Props.C17", "NiflyVerif.Props.SegRefit"]
 ASSUMPTIONS = ["a triangle labelled -1 (unassigned) joins the first partition: the FO4 format has no way to leave a triangle outside "
                "every range; this is taken as part of 'the documented renumbering'",
                "labels that do not occur in the segmentation info are outside SetShapeSegments' domain (the model returns ub) and "
@@ -88,6 +91,11 @@ def run(ctx):
     res = ctx.res
     rng = C.mkrng(ctx.seed, "c17")
     lines, meta = [], []
+    if ctx.replay and json.load(open(ctx.replay))["line"].startswith("c17.refit"):
+        viol, st = segrefit.campaign(ctx, rng, 0, only=json.load(open(ctx.replay))["line"])
+        segrefit.report(res, viol, "C17")
+        res.coverage.update(evaluations=1, distinct_nontrivial=1, refit=st)
+        return
     if ctx.replay:
         rp = json.load(open(ctx.replay))
         lines, meta = [rp["line"]], [(rp["inf"], rp["labels"])]
@@ -182,7 +190,12 @@ def run(ctx):
         res.violation("correspondence", dict(what="correspondence Mesh/Segments.lean <-> SetSegmentation/GetSegmentation no longer checks: " + why,
                                              broken="correspondence c17 segmentation", line=lines[i], inf=[list(x) for x in meta[i][0]],
                                              labels=meta[i][1], mismatches=len(mism)), no_input=True)
+    rst = None
+    if not ctx.replay:
+        rviol, rst = segrefit.campaign(ctx, rng, 150 if ctx.tier == "quick" else 2000)
+        segrefit.report(res, rviol, "C17")
     res.coverage.update(
+        refit_after_vertex_deletion=rst,
         evaluations=len(lines), distinct_nontrivial=nontrivial, traces_validated_against_impl=len(lines) if model else 0,
         exhaustive=True,
         rule="7 segmentation shapes (plain, sub-segments, permuted ids, many segments) × every label list of length 0..4 (quick) / 0..5 "
